@@ -70,6 +70,7 @@ struct Globals {
   bool known_assign_watched_allowed = true;
   bool known_seq_destroy_live_allowed = true;
   bool verbose = false;
+  bool deep = false;   // thorough tier: larger pools and longer plans (recorded in the plan configuration)
 };
 Globals& globals();
 extern volatile int g_last_op_kind;  // for the terminate handler
